@@ -145,6 +145,9 @@ theorem C18_outside_fails_dataset (x : Dataset) (A : PPath) (r : Recording)
 example : recOut ∈ recsOf exBadRS.trav ∧ ¬ inside recOut.path exA ∧ save exBadRS (some exA) = .error .invalid := by
   decide
 
+example : recOut ∈ recsOf (Collection.dataset ⟨"ds", [recIn, recOut], "t", "n", none⟩).trav ∧
+    save (.dataset ⟨"ds", [recIn, recOut], "t", "n", none⟩) (some exA) = .error .invalid := by decide
+
 /-- when every reachable recording lies inside `A`, saving succeeds -/
 theorem C18_inside_succeeds (c : Collection) (A : PPath)
     (hin : ∀ r ∈ recsOf c.trav, inside r.path A) : ∃ d, save c (some A) = .ok d := by
@@ -167,8 +170,19 @@ theorem parse_root_ok (str : String) :
     (parse str).root = "" ∨ (parse str).root = "/" ∨ (parse str).root = "//" :=
   SE.Paths.parse_root_ok str
 
-/-- rendering of the example paths (`parse` itself is `String.splitOn`, defined by well-founded recursion
-    on byte positions, and does not evaluate in the kernel; the harness ties it to `pathlib`) -/
+/-- `Path(str(p)) == p` for well-formed paths -/
+theorem C18_parse_render (p : PPath) (h : p.WF) : parse (render p) = p := parse_render p h
+
+example : exX.WF ∧ exA.WF ∧ (⟨"//", ["..", "x"]⟩ : PPath).WF ∧ (⟨"", []⟩ : PPath).WF :=
+  ⟨⟨by decide, by decide⟩, ⟨by decide, by decide⟩, ⟨by decide, by decide⟩, ⟨by decide, by decide⟩⟩
+
+/-- rendering and parsing of the example paths (`String.splitOn` is defined by well-founded recursion on
+    byte positions and does not evaluate in the kernel: `splitOn_slash` moves to the character list) -/
 example : render exX = "sub dir/ñ.wav" ∧ render exA = "/data/audio" := by decide +kernel
+example : parse "/data/audio" = exA := by unfold parse; rw [splitOn_slash]; decide
+example : parse "sub dir/ñ.wav" = exX := by unfold parse; rw [splitOn_slash]; decide
+example : parse "/data//audio/./" = exA := by unfold parse; rw [splitOn_slash]; decide
+example : parse "///mnt/x" = exB ∧ (parse "//mnt/x").root = "//" := by
+  unfold parse; rw [splitOn_slash, splitOn_slash]; decide
 
 end SE.Proofs.C18
